@@ -281,6 +281,30 @@ func ReadDisk(dir string) *Reach {
 	return r
 }
 
+// LostSince lists the blobs a committed state referenced before (and that were on disk then) which are gone now.
+// Meant for a transaction that did NOT commit in between (rollback, failed commit): the committed state is the same,
+// so everything it referenced has to be there still ("rollback deletes only staged ids"). This also covers the value
+// blob named by an item's id while the node still carries the value inline (the reader does not need it yet).
+func (r *Reach) LostSince(before *Reach) []string {
+	var out []string
+	for _, n := range before.Names {
+		b, a := before.Stores[n], r.Stores[n]
+		if b == nil || a == nil {
+			continue
+		}
+		have := map[string]bool{}
+		for _, f := range a.BlobFiles {
+			have[f] = true
+		}
+		for _, f := range b.BlobFiles {
+			if b.Referenced[f] && !have[f] {
+				out = append(out, fmt.Sprintf("store %s: blob %s, referenced by the committed state, was deleted by a transaction that did not commit", n, f))
+			}
+		}
+	}
+	return out
+}
+
 // AllProblems lists every C10-type problem (something reachable does not load).
 func (r *Reach) AllProblems() []string {
 	out := append([]string{}, r.Problems...)
